@@ -74,7 +74,7 @@ func drawCorruption(s *sim.Src, img []byte, prev []byte) corruption {
 	}
 	be32 := func(v uint32) []byte { b := make([]byte, 4); binary.BigEndian.PutUint32(b, v); return b }
 	be16 := func(v uint16) []byte { b := make([]byte, 2); binary.BigEndian.PutUint16(b, v); return b }
-	kind := s.Weighted([]int{6, 6, 4, 3, 6, 5, 5, 3, 3, 4, 3, 3, 3, 2, 4}, "corruption")
+	kind := s.Weighted([]int{6, 6, 4, 3, 6, 5, 5, 3, 3, 4, 3, 3, 3, 2, 4, 3}, "corruption")
 	switch kind {
 	case 0: // child pointer
 		for try := 0; try < 8; try++ {
@@ -255,6 +255,101 @@ func drawCorruption(s *sim.Src, img []byte, prev []byte) corruption {
 				out := append([]byte(nil), im...)
 				if no*u <= len(out) && no*u <= len(prev) {
 					copy(out[(no-1)*u:no*u], prev[(no-1)*u:no*u])
+				}
+				return out
+			}}
+		}
+	case 15: // crafted cell: oversized declared payload on a cyclic overflow chain (two cooperating fields)
+		var leaves []*pagewalk.Page
+		for _, p := range valid {
+			if p.Type == 0x0d && p.No != 1 && len(p.Cells) > 0 {
+				leaves = append(leaves, p)
+			}
+		}
+		if len(leaves) > 0 && npages >= 4 {
+			p := leaves[s.Draw(len(leaves), "leaf")]
+			// a cycle of 2..3 other pages
+			cyc := []int{}
+			for len(cyc) < 2+s.Draw(2, "cyclen") {
+				q := 2 + s.Draw(npages-1, "cycpage")
+				dup := q == p.No
+				for _, x := range cyc {
+					if x == q {
+						dup = true
+					}
+				}
+				if !dup {
+					cyc = append(cyc, q)
+				}
+				if len(cyc) == 0 && npages < 4 {
+					break
+				}
+			}
+			length := []int64{1 << 20, 1 << 28, 1 << 31, 1 << 40, 1 << 62}[s.Draw(5, "claimed")]
+			return corruption{"crafted-overflow-cycle", fmt.Sprintf("page %d rewritten as a table leaf with one cell claiming %d payload bytes whose overflow chain cycles through pages %v", p.No, length, cyc), func(im []byte) []byte {
+				out := append([]byte(nil), im...)
+				base := (p.No - 1) * u
+				if base+u > len(out) {
+					return out
+				}
+				pg := out[base : base+u]
+				for i := range pg {
+					pg[i] = 0
+				}
+				// local part per the file format's rule
+				x := int64(u - 35)
+				m := int64((u-12)*32/255 - 23)
+				local := m + (length-m)%int64(u-4)
+				if local > x {
+					local = m
+				}
+				var lv []byte
+				{ // varint of length
+					v := uint64(length)
+					var tmp [10]byte
+					n := 0
+					if v >= 1<<56 {
+						// 9-byte form
+						lv = []byte{byte(v>>57) | 0x80, byte(v>>50) | 0x80, byte(v>>43) | 0x80, byte(v>>36) | 0x80, byte(v>>29) | 0x80, byte(v>>22) | 0x80, byte(v>>15) | 0x80, byte(v>>8) | 0x80, byte(v)}
+					} else {
+						for {
+							tmp[n] = byte(v & 0x7f)
+							n++
+							v >>= 7
+							if v == 0 {
+								break
+							}
+						}
+						for i := n - 1; i >= 0; i-- {
+							b := tmp[i]
+							if i > 0 {
+								b |= 0x80
+							}
+							lv = append(lv, b)
+						}
+					}
+				}
+				cell := append(append([]byte{}, lv...), 0x01) // rowid 1
+				payload := make([]byte, local)
+				if local >= 2 {
+					payload[0], payload[1] = 0x02, 0x0c // record: header size 2, one zero-length blob... the rest is body
+				}
+				cell = append(cell, payload...)
+				cell = append(cell, be32(uint32(cyc[0]))...)
+				off := u - len(cell)
+				if off < 16 {
+					return out
+				}
+				copy(pg[off:], cell)
+				pg[0] = 0x0d
+				binary.BigEndian.PutUint16(pg[3:5], 1)
+				binary.BigEndian.PutUint16(pg[5:7], uint16(off))
+				binary.BigEndian.PutUint16(pg[8:10], uint16(off))
+				for i, q := range cyc {
+					nx := cyc[(i+1)%len(cyc)]
+					if (q-1)*u+4 <= len(out) {
+						copy(out[(q-1)*u:], be32(uint32(nx)))
+					}
 				}
 				return out
 			}}
